@@ -14,6 +14,7 @@ MC_VsAsIs  == {{}}
 
 \* quick: no DID / with DID (repaired MIU), different MIUs per direction
 MC_CfgsFixed == {Cfg(5, 5, FALSE, FALSE, TRUE, 2), Cfg(6, 5, TRUE, FALSE, TRUE, 2), Cfg(5, 7, TRUE, TRUE, TRUE, 2)}
+MC_CfgsThorough == MC_CfgsFixed \cup {Cfg(7, 6, FALSE, FALSE, TRUE, 3)}
 MC_CfgsAsIs  == {Cfg(5, 5, FALSE, FALSE, FALSE, 2), Cfg(6, 6, TRUE, FALSE, FALSE, 2)}
 MC_CfgsNoDid == {Cfg(5, 5, FALSE, FALSE, FALSE, 2)}
 MC_Lens  == {1, 2, 3, 5}
